@@ -48,12 +48,19 @@ func Tool() {}
 `
 
 const goWrapScript = `#!/bin/sh
-# fails (VT_GOFAIL=<subcommand>) or stalls (VT_GOPAUSE=<subcommand>, marker file VT_GOMARK, until VT_GORELEASE exists) one go subcommand
+# fails (VT_GOFAIL=<subcommand>) or stalls before (VT_GOPAUSE=<subcommand>) or after (VT_GOPAUSEAFTER=<subcommand>) one go subcommand
+# (marker file VT_GOMARK, until VT_GORELEASE exists)
 if [ -n "$VT_GOLIFT" ]; then ulimit -f unlimited 2>/dev/null; fi
 if [ -n "$VT_GOFAIL" ] && [ "$1" = "$VT_GOFAIL" ]; then echo "injected failure of go $1" >&2; exit 1; fi
 if [ -n "$VT_GOPAUSE" ] && [ "$1" = "$VT_GOPAUSE" ]; then
   : > "$VT_GOMARK"
   if [ -n "$VT_GORELEASE" ]; then n=0; while [ ! -e "$VT_GORELEASE" ] && [ $n -lt 600 ]; do sleep 0.1; n=$((n+1)); done; else sleep 60; fi
+fi
+if [ -n "$VT_GOPAUSEAFTER" ] && [ "$1" = "$VT_GOPAUSEAFTER" ]; then
+  go "$@"; rc=$?
+  : > "$VT_GOMARK"
+  n=0; while [ ! -e "$VT_GORELEASE" ] && [ $n -lt 600 ]; do sleep 0.1; n=$((n+1)); done
+  exit $rc
 fi
 exec go "$@"
 `
